@@ -28,8 +28,12 @@ ASSUMPTIONS = [
     "reachable for Binance - it is exercised with a harness connector (trait-default expected_responses) as a labelled "
     "demonstration that is reported as a NOTE and never enters the verdict",
     "wire values: ids shifted by a per-world base (up to 2^62), prices / amounts scaled by powers of ten",
+    "update ids may change no level of the book (side 'n'): events made only of such ids are depth updates with empty b and a, "
+    "and they are links of the chain like any other",
+    "three instruments share the transformer; the REST snapshots (modes direct/stream) resp. the subscriptions (mode init) are "
+    "given in every one of the six orders (scenario n starts with permutation n mod 6, reconnects draw one)",
 ]
-INSTR = ("i1", "i2")
+INSTR = ("i1", "i2", "i3")
 
 
 def anomaly(line):
@@ -68,6 +72,8 @@ def truth(chg, n):
     """Exchange book after changes 1..n as {bids, asks, seq} (replay files only: the REST snapshot contents)."""
     sides = {"b": {}, "a": {}}
     for c in chg[:n]:
+        if c["side"] == "n":
+            continue
         if c["a"] == 0:
             sides[c["side"]].pop(c["p"], None)
         else:
@@ -83,7 +89,7 @@ def scenario_of(seg):
     steps, first = [], True
     for l in seg[1:]:
         if l["a"] == "Connect":
-            steps.append({"a": "Init" if first else "Reinit", "snap": l["snap"], "pre": l["pre"], "buf": l["buf"],
+            steps.append({"a": "Init" if first else "Reinit", "snap": l["snap"], "pre": l["pre"], "buf": l["buf"], "order": l.get("order", []),
                           "books": {i: truth(w["chg"][i], l["snap"][i]) for i in INSTR}})
             first = False
         else:
@@ -229,7 +235,8 @@ def check(ctx):
     ctx.assumptions += ASSUMPTIONS
     ctx.build("c06")
     # exhaustive: one instrument, fixed evolutions, reconnect (every action covered) ...
-    ctx.tlc_mc("MC_" + MODULE, "MC_BinanceL2.cfg", timeout=900)
+    ctx.tlc_mc("MC_" + MODULE, "MC_BinanceL2_actions.cfg", timeout=600)          # vacuity: every action taken (with -coverage)
+    ctx.tlc_mc("MC_" + MODULE, "MC_BinanceL2.cfg", timeout=900, coverage=False)
     # ... connection establishment with buffered frames (expected confirmations 1 and 2); two instruments on one
     # connection; all evolutions of a small book (content x sequencing)
     ctx.tlc_mc("MC_" + MODULE, "MC_BinanceL2_init.cfg", timeout=900, coverage=False)
@@ -250,7 +257,8 @@ def check(ctx):
     b0["steps"] = b0["steps"][:6]
     ctx.sample({"kind": "TLC simulated behaviour, two instruments (first 6 of %d steps)" % len(scn_b[0]["steps"]), "scenario": b0})
     segments = 8 if ctx.quick else 120
-    run_scenarios(ctx, p_t, scn_t, MODES, "transitions")
+    # (mode init = mode stream + the real connection establishment: the exhaustive set skips stream in quick)
+    run_scenarios(ctx, p_t, scn_t, ("direct", "init") if ctx.quick else MODES, "transitions")
     run_scenarios(ctx, p_b, scn_b, MODES, "behaviours")
     traces = []
     for mode in MODES:
